@@ -9,6 +9,8 @@ import (
 	"github.com/jilio/ebu/stores/sqlite"
 	"path/filepath"
 	"strconv"
+	"strings"
+	"time"
 
 	eventbus "github.com/jilio/ebu"
 	"verif/storekit"
@@ -34,6 +36,9 @@ type FOp struct {
 	// database (the store serves as subscription store for a log kept
 	// elsewhere, or a consumer numbers its own positions).
 	Ahead int `json:"ahead,omitempty"`
+	// BigKB > 0 (append): the event carries BigKB KiB of padding, so that
+	// writing it takes longer than a small busy timeout.
+	BigKB int `json:"big_kb,omitempty"`
 }
 
 type FCase struct {
@@ -42,6 +47,11 @@ type FCase struct {
 	// the "peek" operation reads streams; how they are fetched is nobody
 	// else's business.
 	Batch int `json:"batch,omitempty"`
+	// BusyMs > 0: the store is opened with WithBusyTimeout(BusyMs ms).  The
+	// busy timeout bounds the wait for a lock held by someone else; nobody
+	// else has the database open here, so it changes nothing: one Append call
+	// is one row, however long the write takes.
+	BusyMs int `json:"busy_ms,omitempty"`
 }
 
 type fEntry struct {
@@ -65,6 +75,7 @@ func RunInProc(c *FCase) *vkit.Outcome {
 	nextID := 0
 	faults, ackedBeforeFault := 0, false
 	var maxPos int64
+	spurious := ""
 
 	audit := func(when string) bool {
 		st, _, err := storekit.OpenSQLiteFaulty(path)
@@ -161,6 +172,9 @@ func RunInProc(c *FCase) *vkit.Outcome {
 		if c.Batch > 0 {
 			sopts = append(sopts, sqlite.WithStreamBatchSize(c.Batch))
 		}
+		if c.BusyMs > 0 {
+			sopts = append(sopts, sqlite.WithBusyTimeout(time.Duration(c.BusyMs)*time.Millisecond))
+		}
 		st, plan, err := storekit.OpenSQLiteFaulty(path, sopts...)
 		if err != nil {
 			o.Failf("", "cycle %d: open: %v", ci, err)
@@ -203,7 +217,12 @@ func RunInProc(c *FCase) *vkit.Outcome {
 				o.Class("stream_read_abandoned_part_way")
 			case "append":
 				nextID++
-				off, err := st.Append(ctx, &eventbus.Event{Type: "ev", Data: []byte(fmt.Sprintf(`{"id":%d}`, nextID))})
+				data := []byte(fmt.Sprintf(`{"id":%d}`, nextID))
+				if op.BigKB > 0 {
+					data = []byte(fmt.Sprintf(`{"id":%d,"pad":"%s"}`, nextID, strings.Repeat("p", op.BigKB<<10)))
+					o.Class("append_of_a_large_event")
+				}
+				off, err := st.Append(ctx, &eventbus.Event{Type: "ev", Data: data})
 				plan.Arm(false)
 				e := fEntry{id: nextID, acked: err == nil, off: off}
 				if err == nil {
@@ -215,8 +234,10 @@ func RunInProc(c *FCase) *vkit.Outcome {
 						return o
 					}
 					maxPos = pos
-				} else if op.Fault == "" {
-					o.Failf("", "cycle %d: Append failed without an injected fault: %v", ci, err)
+				} else if op.Fault == "" && spurious == "" {
+					// reported after the audit: what the failed call left in
+					// the log is the more telling symptom
+					spurious = fmt.Sprintf("cycle %d: Append of event %d (%d KiB of padding, busy timeout %d ms) failed without an injected fault and with nobody else using the database: %v", ci, nextID, op.BigKB, c.BusyMs, err)
 				}
 				log = append(log, e)
 			case "save":
@@ -256,6 +277,10 @@ func RunInProc(c *FCase) *vkit.Outcome {
 			return o
 		}
 		if !audit(fmt.Sprintf("after cycle %d", ci)) {
+			return o
+		}
+		if spurious != "" {
+			o.Failf("", "%s", spurious)
 			return o
 		}
 	}
